@@ -142,6 +142,9 @@ type Ctx struct {
 	// PosSubst, when set, resolves a use of a local to the expression that defines its value at
 	// that use (see InstallReaching); consulted before Subst.
 	PosSubst func(id *ast.Ident) ast.Expr
+	// TypeSwitchConds: path conditions include the type test of an enclosing type-switch clause
+	// (ok(x.(T))); set by rules that reason about which dynamic types reach a statement.
+	TypeSwitchConds bool
 }
 
 // ComputeSubst finds the locals of body that are defined exactly once by `x := e` (or a tuple
@@ -813,6 +816,49 @@ func StringLit(e ast.Expr) (string, bool) {
 		}
 	}
 	return "", false
+}
+
+// InstallTypeSwitchVars makes the variable a type switch binds in a single-type clause print as
+// the assertion it stands for (`switch d := x.(type) { case *T: … d.F … }` prints d.F as
+// x.(*T).F), so that conditions written through the typed variable and through an explicit
+// assertion are the same text. undo removes the substitutions again.
+func (c *Ctx) InstallTypeSwitchVars(root ast.Node) (undo func()) {
+	if c.Subst == nil {
+		c.Subst = map[types.Object]ast.Expr{}
+	}
+	var added []types.Object
+	ast.Inspect(root, func(n ast.Node) bool {
+		ts, ok := n.(*ast.TypeSwitchStmt)
+		if !ok {
+			return true
+		}
+		as, ok := ts.Assign.(*ast.AssignStmt)
+		if !ok || len(as.Rhs) != 1 {
+			return true
+		}
+		ta, ok := as.Rhs[0].(*ast.TypeAssertExpr)
+		if !ok {
+			return true
+		}
+		for _, cl := range ts.Body.List {
+			cc := cl.(*ast.CaseClause)
+			if len(cc.List) != 1 {
+				continue
+			}
+			if o := c.Info.Implicits[cc]; o != nil {
+				if _, has := c.Subst[o]; !has {
+					c.Subst[o] = &ast.TypeAssertExpr{X: ta.X, Type: cc.List[0]}
+					added = append(added, o)
+				}
+			}
+		}
+		return true
+	})
+	return func() {
+		for _, o := range added {
+			delete(c.Subst, o)
+		}
+	}
 }
 
 // StringLitS is StringLit through the substitution: an identifier that stands for a string
